@@ -30,8 +30,8 @@ type Ev struct {
 	// Then, when set, returns further messages carried by the same transaction / proposal: they run
 	// after the first one and the whole unit is dropped unless every message succeeds.
 	Then func(v View) []sdk.Msg
-	Gov  bool // executed the way x/gov executes authority messages (no tx, no ante)
-	Fee   sdk.Coins // fee of the transaction (mode B real, mode A emulated)
+	Gov  bool      // executed the way x/gov executes authority messages (no tx, no ante)
+	Fee  sdk.Coins // fee of the transaction (mode B real, mode A emulated)
 	// Custom is a harness-level event (e.g. module export/import restart) executed on a branch in
 	// mode A; histories containing it are not replayed in mode B. ok=false: not enabled here.
 	Custom func(w *harness.World, ctx sdk.Context) (next sdk.Context, out harness.Outcome, ok bool)
